@@ -59,13 +59,14 @@ def evenPairs : Bytes → Option (List Bytes)
   | [_] => none
   | a :: b :: t => (evenPairs t).map (fun r => [a, b] :: r)
 
-/-- the objects of one data line: object `i` of `n` sits at beat `4·i/n` of its measure -/
+/-- the objects of one data line: object `i` of `n` sits at beat `4·i/n` of its measure (a bare position: no
+metronome attached; tempo objects get the 4/4 metronome in `tempoOfObj`) -/
 def lineObjs (m : Nat) (seq : Bytes) : Option (List Obj) :=
   (evenPairs seq).map fun ps =>
     let n := ps.length
     (zipIdxFrom 0 ps).filterMap fun p =>
       if p.2 = ['0', '0'] then none
-      else some ⟨⟨(m : Int), 4 * ((p.1 : Nat) : Rat) / ((n : Nat) : Rat), some 4⟩, p.2⟩
+      else some ⟨⟨(m : Int), 4 * ((p.1 : Nat) : Rat) / ((n : Nat) : Rat), none⟩, p.2⟩
 
 def allSome {α} : List (Option α) → Option (List α)
   | [] => some []
@@ -136,36 +137,46 @@ deriving Repr
 
 def tempoOfObj (exbpms : Dict Rat) (ex : Bool) (o : Obj) : Option BcSnap :=
   let bpm? : Option Rat := if ex then dictGet? exbpms o.id else (parseHex2 o.id).map (fun v => ((v : Nat) : Rat))
-  bpm?.bind fun bpm => if bpm ≤ 0 then none else some ⟨bpm, 4, o.snap⟩
+  bpm?.bind fun bpm => if bpm ≤ 0 then none else some ⟨bpm, 4, { o.snap with met := some 4 }⟩
 
-def strictAscBc : List BcSnap → Bool
-  | [] => true
-  | [_] => true
-  | a :: b :: t => a.snap.lt b.snap && strictAscBc (b :: t)
+/-- tempo positions strictly increasing: `Reamber.Timing.strictSnaps` -/
+abbrev strictAscBc : List BcSnap → Bool := strictSnaps
+
+/-- the text is inside the format: positive `#BPM`, no channel-02 line, every data line has a measure number and
+an even number of characters -/
+def guardsOk (lay : Layout) (doc : Doc) (hdr : Header) : Bool :=
+  !(decide (hdr.bpm0 ≤ 0)) && !(doc.notes.any (fun d => d.2.1 = lay.timeSig)) &&
+  !(doc.notes.any (fun d => (parseNat d.1).isNone || (evenPairs d.2.2).isNone))
+
+/-- the tempo list: the `#BPM` header at measure 0, then the tempo objects of channels 03 and 08 in position
+order (pairwise different positions) -/
+def denoteTempo (lay : Layout) (notes : List (Bytes × Bytes × Bytes)) (exbpms : Dict Rat) (bpm0 : Rat) : Option (List BcSnap) :=
+  match channelObjs notes lay.bpmCh, channelObjs notes lay.exbpmCh with
+  | some o3, some o8 =>
+    match allSome (o3.map (tempoOfObj exbpms false)), allSome (o8.map (tempoOfObj exbpms true)) with
+    | some t3, some t8 =>
+      if strictAscBc (sortBcSnap (t3 ++ t8)) then some (⟨bpm0, 4, ⟨0, 0, some 4⟩⟩ :: sortBcSnap (t3 ++ t8)) else none
+    | _, _ => none
+  | _, _ => none
+
+/-- one lane: its objects in position order (pairwise different positions), paired by the book -/
+def denoteLane (lnobj : Option Bytes) (sampleOf : Bytes → Bytes) (notes : List (Bytes × Bytes × Bytes))
+    (lane : Bytes × Nat) : Option (List SHit × List SHold) :=
+  match channelObjs notes lane.1 with
+  | some os => if strictAsc (sortObjs os) then pairLane lnobj sampleOf lane.2 none (sortObjs os) else none
+  | none => none
 
 /-- everything but the header record: tempo list, positioned hits and holds -/
-def denoteBody (lay : Layout) (doc : Doc) (hdr : Header) : Option (List BcSnap × List SHit × List SHold) := do
-  if hdr.bpm0 ≤ 0 then none
-  if doc.notes.any (fun d => d.2.1 = lay.timeSig) then none
-  -- every data line is well-formed: a measure number and an even number of characters
-  if doc.notes.any (fun d => (parseNat d.1).isNone || (evenPairs d.2.2).isNone) then none
-  -- tempo
-  let o3 ← channelObjs doc.notes lay.bpmCh
-  let o8 ← channelObjs doc.notes lay.exbpmCh
-  let t3 ← allSome (o3.map (tempoOfObj hdr.exbpms false))
-  let t8 ← allSome (o8.map (tempoOfObj hdr.exbpms true))
-  let objs := sortBcSnap (t3 ++ t8)
-  if !strictAscBc objs then none
-  let cs : List BcSnap := ⟨hdr.bpm0, 4, ⟨0, 0, some 4⟩⟩ :: objs
-  -- lanes
-  let lnobj : Option Bytes := dictGet? doc.header "LNOBJ".toList
-  let sampleOf : Bytes → Bytes := fun id => (dictGet? hdr.samples id).getD []
-  let perLane ← allSome (lay.lanes.map fun lane => do
-    let os ← channelObjs doc.notes lane.1
-    let os := sortObjs os
-    if !strictAsc os then none
-    pairLane lnobj sampleOf lane.2 none os)
-  some (cs, perLane.flatMap (·.1), perLane.flatMap (·.2))
+def denoteBody (lay : Layout) (doc : Doc) (hdr : Header) : Option (List BcSnap × List SHit × List SHold) :=
+  if guardsOk lay doc hdr then
+    match denoteTempo lay doc.notes hdr.exbpms hdr.bpm0 with
+    | none => none
+    | some cs =>
+      match allSome (lay.lanes.map (denoteLane (dictGet? doc.header "LNOBJ".toList)
+          (fun id => (dictGet? hdr.samples id).getD []) doc.notes)) with
+      | none => none
+      | some perLane => some (cs, perLane.flatMap (·.1), perLane.flatMap (·.2))
+  else none
 
 def denote (lay : Layout) (lines : List Bytes) : Option Denotation :=
   match parseDoc lines with
